@@ -317,30 +317,30 @@ class C14(DiffProperty):
                "node that is still linked or an ancestor of the position; merging lists of the same tree); the same guard "
                "is evaluated by harness, model and specification"]
     level = "proof"
-    level_text = ("proof (partial for merge/swap/switch): Coq theorems C14_step_refines_forest / "
+    level_text = ("proof (partial only for gnode_swap/gnode_switch): Coq theorems C14_step_refines_forest / "
                   "C14_history_refines_forest_partial / C14_wf_preserved_partial / C14_wf_links / C14_released_once / "
                   "C14_cleanup_releases_all / C14_clone_equal_shape state, for every heap that represents an ordered forest "
                   "(any number of nodes, depth, names) and every history over new, gnode_after/before, gnode_add/node_add "
-                  "and gnode_insert/node_insert at every position code (by position and by name), unlink, node/list/tree "
+                  "and gnode_insert/node_insert at every position code (by position and by name), unlink, mpt_node_move "
+                  "(merge of lists with overlapping names, recursively, from a child list or a local list), node/list/tree "
                   "clone, clear, destroy, relink, the three traversal orders and the final clean-up, that the transcribed "
                   "pointer mechanism never dereferences NULL or freed memory, never frees twice, returns what the forest "
                   "operation returns and after EVERY step has exactly the links the resulting forest dictates — which implies "
                   "every explicit link rule (next/prev agree, every child names its parent, children = list head, parent and "
                   "next chains end, pointers name live cells) —, that every id is in the forest once or freed once and after "
                   "the clean-up all ids are freed exactly once, and that a cloned list has the source's shape at every depth "
-                  "with parent links; mpt_node_move (merge), gnode_swap and gnode_switch are modelled and specified but "
-                  "their refinement is not proved; the model is tied to the code on every run by differential execution "
-                  "of histories under ASan/UBSan/LSan with a full raw-link dump and an independent well-formedness verdict "
-                  "after every operation")
-    level_note = ("partial: the history theorems carry the hypothesis 'Forall proved ops'; node_move/lmove (merge with "
-                  "overlapping names), gnode_swap and gnode_switch are outside 'proved' and are covered by the correspondence "
-                  "run and the specification oracle only. Trusted: "
+                  "with parent links; gnode_swap and gnode_switch (not among the operations the property names) are modelled "
+                  "and specified but their refinement is not proved; the model is tied to the code on every run by "
+                  "differential execution of histories under ASan/UBSan/LSan with a full raw-link dump and an independent "
+                  "well-formedness verdict after every operation")
+    level_note = ("partial: the history theorems carry the hypothesis 'Forall proved ops'; only gnode_swap and gnode_switch "
+                  "are outside 'proved' and are covered by the correspondence run and the specification oracle only. Trusted: "
                   "Coq kernel; hand transcription of mptcore/node/*.c (validated by the correspondence run, not verified); "
                   "names are modelled as 4 codes with equality (identifier charset/length variants of mpt_node_locate are "
                   "not modelled); malloc failure, level-order traversal, node_find/node_next not modelled; the guards of "
                   "the history language (insert only unlinked nodes, never below themselves; merge lists of different "
-                  "trees) are callers' obligations, evaluated identically by harness, model and specification; extraction "
-                  "(ExtrOcamlBasic) and OCaml driver; harness. Theorems are closed under the global context (no axioms).")
+                  "top-level lists) are callers' obligations, evaluated identically by harness, model and specification; "
+                  "extraction (ExtrOcamlBasic) and OCaml driver; harness. Theorems are closed under the global context (no axioms).")
     technique = "Coq refinement proof (pointer heap -> ordered forests) + differential correspondence check"
     assumptions = ["malloc succeeds", "callers insert only unlinked nodes and never below themselves (guards of the history language)"]
 
